@@ -35,6 +35,49 @@ Cfgs == SetToSeq({[xref |-> x, objstm |-> o, compress |-> c, version |-> v] : x 
 DocOf(k) == [pages |-> [x \in 1..((k % 3) + 1) |-> PageOf(k * 7 + x * 11)], info |-> InfoOf(k), cfg |-> Cfgs[(k % Len(Cfgs)) + 1]]
 NDocs == Len(Cfgs) * 3 * Stride
 
+(* ------------------------------ interactive documents (module Interactive) ------------------------------
+   Annotations of every kind the API builds, in every position of a page's list, with hostile text; form fields of
+   every kind with hostile partial names (no period: 12.7.3.2), values and export names; widgets of one field on
+   one or two pages; documents with no field, pages with no annotation.                                         *)
+AKinds == <<"text", "uri", "highlight", "square", "note", "underline", "line", "freetext", "strikeout", "stamp", "ink", "squiggly", "circle", "polygon">>
+Uris == << <<104, 116, 116, 112, 58, 47, 47, 101, 46, 120, 47, 97, 40, 98, 41, 63, 113, 61, 49>>, <<109, 97, 105, 108, 116, 111, 58, 97, 64, 98>>, <<120, 92, 121, 41>>, <<35, 37, 47>> >>
+AsciiNames == << <<89, 101, 115>>, <<79, 110, 32, 105, 116, 35, 47>>, <<65, 32, 66>>, <<67, 40, 49, 41>>, <<120, 37, 121>>, <<91, 122, 93>>, <<79, 110>> >>
+FNames == << <<102>>, <<97, 32, 98>>, <<40, 112, 41>>, <<233, 252>>, <<20013>>, <<110, 35, 49, 47, 50>>, <<120, 92, 121>>, <<90, 128512>> >>
+ARect(j) == LET x == 10 + (j % 7) * 3  y == 20 + (j % 5) * 11 IN <<x, y, x + 40 + (j % 3) * 40, y + 12 + (j % 4)>>
+StrAt(j) == Strs[(j % Len(Strs)) + 1]
+AnnotOf(j) ==
+  LET k == AKinds[(j % Len(AKinds)) + 1]  base == [k |-> k, rect |-> ARect(j)] IN
+  CASE k \in {"text", "note"} -> IF j % 5 = 4 THEN base ELSE base @@ [text |-> StrAt(j \div 3)]
+    [] k \in {"highlight", "underline", "strikeout", "squiggly"} -> IF (j \div 14) % 2 = 0 THEN base @@ [text |-> StrAt(j \div 3), author |-> StrAt(j \div 5)] ELSE base @@ [text |-> StrAt(j \div 2)]
+    [] k = "freetext" -> base @@ [text |-> StrAt(j \div 3)]
+    [] k = "uri" -> base @@ [uri |-> Uris[((j \div 14) % Len(Uris)) + 1]]
+    [] k = "stamp" -> IF (j \div 14) % 3 = 0 THEN base ELSE base @@ [name |-> AsciiNames[((j \div 14) % Len(AsciiNames)) + 1]]
+    [] OTHER -> base
+FKinds == <<"text", "check", "radio", "combo", "list", "push">>
+FieldOf(i, j) ==
+  LET k == FKinds[(j % 6) + 1]  h == j \div 6
+      base == [id |-> i, k |-> k, name |-> FNames[(h % Len(FNames)) + 1] \o <<48 + i>>] IN
+  CASE k = "text" -> IF h % 4 = 3 THEN base ELSE base @@ [value |-> StrAt(h)]
+    [] k = "check" -> base @@ [value |-> AsciiNames[(h % Len(AsciiNames)) + 1], on |-> h % 2 = 0]
+    [] k = "radio" -> LET o == <<AsciiNames[(h % Len(AsciiNames)) + 1], AsciiNames[((h + 1) % Len(AsciiNames)) + 1]>> IN
+                      IF h % 3 = 2 THEN base @@ [options |-> o] ELSE base @@ [options |-> o, selected |-> h % 2]
+    [] k = "combo" -> LET o == <<StrAt(h), StrAt(h + 3), <<111, 112, 116>> >> IN IF h % 3 = 0 THEN base @@ [options |-> o] ELSE base @@ [options |-> o, value |-> o[(h % 3)]]
+    [] k = "list" -> base @@ [options |-> <<StrAt(h + 1), <<111>> >>]
+    [] OTHER -> base
+DocX(k) ==
+  LET np == (k % 3) + 1
+      nf == (k \div 2) % 4
+      fields == [i \in 1..nf |-> FieldOf(i, k + i * 5)]
+      PageOfField(i, part) == ((i + k + part) % np) + 1
+      WRect(i, part) == <<10 + 30 * i, 300, 30 + 30 * i, 320 + part>>
+      Widgets(x) == LET First == SelectSeq([i \in 1..nf |-> [k |-> "widget", field |-> i, rect |-> WRect(i, 0)]], LAMBDA w : PageOfField(w.field, 0) = x)
+                        Second == SelectSeq([i \in 1..nf |-> [k |-> "widget", field |-> i, rect |-> WRect(i, 1)]], LAMBDA w : fields[w.field].k = "radio" /\ PageOfField(w.field, 1) = x)
+                    IN First \o Second
+      PageX(x) == PageOf(k * 5 + x * 13) @@
+                  [annots |-> [y \in 1..((k + x) % 3) |-> AnnotOf(k * 3 + x * 5 + y)] \o Widgets(x) \o [y \in 1..((k \div 3 + x) % 2) |-> AnnotOf(k * 7 + x + y + 1)]]
+  IN [pages |-> [x \in 1..np |-> PageX(x)], fields |-> fields, info |-> InfoOf(k + 3), cfg |-> Cfgs[(k % Len(Cfgs)) + 1]]
+NDocsX == Len(Cfgs) * (Stride + 1)
+
 \* (the variable `done` is MCContent's)
 DInit == done = FALSE
 \* one document with more than a hundred compressible objects (a second object stream, a second hundred of entries)
@@ -43,7 +86,8 @@ BigDoc == [pages |-> [x \in 1..104 |-> [w |-> 200, h |-> 100, rot |-> (x % 4) * 
 DNext == /\ ~done
          /\ \A k \in 1..NDocs : PrintT(<<"REPLAY", ToJson(DocOf(k))>>)
          /\ PrintT(<<"REPLAY", ToJson(BigDoc)>>)
-         /\ PrintT(<<"COUNT", ToJson([docs |-> NDocs, cfgs |-> Len(Cfgs)])>>)
+         /\ \A k \in 1..NDocsX : PrintT(<<"REPLAY", ToJson(DocX(k))>>)
+         /\ PrintT(<<"COUNT", ToJson([docs |-> NDocs, interactive |-> NDocsX, cfgs |-> Len(Cfgs)])>>)
          /\ done' = TRUE
 DSpec == DInit /\ [][DNext]_done
 =============================================================================
